@@ -11,7 +11,7 @@ from vf.simk.world import World, FD
 
 ID = "C14"
 LEVEL = "exploration"
-KINDS = ["reg", "del", "delx", "litdel", "sock", "pipe", "anon", "chr", "rel", "dir"]
+KINDS = ["reg", "del", "delx", "litdel", "sock", "pipe", "anon", "anon2", "chr", "rel", "dir"]
 FLAGBITS = [os.O_APPEND, os.O_CREAT, os.O_TRUNC, os.O_CLOEXEC, os.O_NONBLOCK, 0o100000]
 POS = [0, 1, 2 ** 31 - 1, 2 ** 31, 2 ** 32, 2 ** 63 - 1]
 MODES5 = {"r", "w", "a", "r+", "a+"}
@@ -20,7 +20,7 @@ MODES5 = {"r", "w", "a", "r+", "a+"}
 def target(kind, i):
     return {"reg": "/tmp/f%d" % i, "del": "/tmp/gone%d (deleted)" % i, "delx": "/tmp/f%d (deleted)" % i,
             "litdel": "/tmp/lit%d (deleted)" % i, "sock": "socket:[%d]" % (7000 + i), "pipe": "pipe:[%d]" % (8000 + i),
-            "anon": "anon_inode:[eventpoll]", "chr": "/dev/null", "rel": "rel/path%d" % i, "dir": "/tmp"}[kind]
+            "anon": "anon_inode:[eventpoll]", "anon2": "anon_inode:inotify", "chr": "/dev/null", "rel": "rel/path%d" % i, "dir": "/tmp"}[kind]
 
 
 def mk_world(seed):
@@ -31,6 +31,15 @@ def mk_world(seed):
     for i in range(8):
         w.set_file("/tmp/f%d" % i, b"x")
         w.set_file("/tmp/lit%d (deleted)" % i, b"x")
+    # decoys: regular files in the caller's working directory (the model resolves relative names against "/") named exactly
+    # like the relative link targets -- a target that is not an absolute path never names a file of the *subject*
+    w.mkdir("/rel")
+    for i in range(12):
+        w.set_file("/rel/path%d" % i, b"decoy")
+        w.set_file("/socket:[%d]" % (7000 + i), b"decoy")
+        w.set_file("/pipe:[%d]" % (8000 + i), b"decoy")
+    w.set_file("/anon_inode:[eventpoll]", b"decoy")
+    w.set_file("/anon_inode:inotify", b"decoy")
     return w, p
 
 
@@ -225,7 +234,7 @@ def build_cases(thorough):
         if ex:
             cases.append(("table", {"3": ["reg", 5, 0o100002], "4": ["litdel", 9, 0o102001]}, ex))
     nmax = 5 if thorough else 3
-    kinds = KINDS if thorough else ["reg", "del", "delx", "litdel", "sock", "pipe", "chr", "rel", "dir"]
+    kinds = KINDS if thorough else ["reg", "del", "delx", "litdel", "sock", "pipe", "anon2", "chr", "rel", "dir"]
     for n in range(0, nmax + 1):
         for combo in itertools.product(kinds, repeat=n):
             cases.append(("table", {str(3 + i): [k, 11 * (i + 1), [0o100000, 0o100001, 0o102002, 0o101][i % 4]] for i, k in enumerate(combo)}))
